@@ -161,24 +161,30 @@ func extLastIndex(fr *frame, st *state, c *ssa.CallCommon, args []string, pos to
 		sc.assume(fmt.Sprintf("(=> (>= %s 0) (= (sat %s %s) %d))", r, s, r, lit[0]))
 		j := sc.fresh("j")
 		sc.assume(fmt.Sprintf("(forall ((%s Int)) (! (=> (and (< %s %s) (< %s (slen %s)) (<= 0 %s)) (not (= (sat %s %s) %d))) :pattern ((sat %s %s))))", j, r, j, j, s, j, s, j, lit[0], s, j))
-		// relation to the counting function
-		fr.fc.e.u.global("(declare-fun bytecount ((Array Int Int) Int Int Int) Int)")
-		sc.assume(fmt.Sprintf("(= (>= %s 0) (> (bytecount (sbase %s) (slo %s) (shi %s) %d) 0))", r, s, s, s, lit[0]))
-		sc.assume(fmt.Sprintf("(=> (>= %s 0) (= (bytecount (sbase %s) (+ (slo %s) %s 1) (shi %s) %d) 0))", r, s, s, r, s, lit[0]))
+		if lit == "\n" {
+			// ground consequences of the definitions of nlcum / lstartraw
+			fr.fc.e.u.declareCounting()
+			sc.assume(fmt.Sprintf("(= (>= %s 0) (> (- (nlcum (sbase %s) (shi %s)) (nlcum (sbase %s) (slo %s))) 0))", r, s, s, s, s))
+			sc.assume(fmt.Sprintf("(=> (>= %s 0) (and (= (nlcum (sbase %s) (shi %s)) (nlcum (sbase %s) (+ (slo %s) %s 1))) (= (lstartraw (sbase %s) (shi %s)) (+ (slo %s) %s 1))))", r, s, s, s, s, r, s, s, s, r))
+		}
 	}
 	return []string{r}
 }
 
-// strings.Count(s, sep) for a one-byte separator: bytecount(base, lo, hi, byte).
+// strings.Count(s, sep) for a one-byte separator.
 func extCount(fr *frame, st *state, c *ssa.CallCommon, args []string, pos token.Pos) []string {
 	sc := fr.fc.sc
 	s := args[0]
 	r := sc.declare("count", "Int")
 	sc.assume(fmt.Sprintf("(and (>= %s 0) (<= %s (+ (slen %s) 1)))", r, r, s))
 	if lit, ok := litOf(c.Args[1]); ok && len(lit) == 1 {
-		fr.fc.e.u.global("(declare-fun bytecount ((Array Int Int) Int Int Int) Int)")
-		sc.assume(fmt.Sprintf("(= %s (bytecount (sbase %s) (slo %s) (shi %s) %d))", r, s, s, s, lit[0]))
 		sc.assume(fmt.Sprintf("(<= %s (slen %s))", r, s))
+		if lit == "\n" {
+			fr.fc.e.u.declareCounting()
+			sc.assume(fmt.Sprintf("(= %s (- (nlcum (sbase %s) (shi %s)) (nlcum (sbase %s) (slo %s))))", r, s, s, s, s))
+			// no newline in the string: the line start does not move across it
+			sc.assume(fmt.Sprintf("(=> (= %s 0) (= (lstartraw (sbase %s) (shi %s)) (lstartraw (sbase %s) (slo %s))))", r, s, s, s, s))
+		}
 	}
 	return []string{r}
 }
@@ -486,3 +492,12 @@ func extNewError(fr *frame, st *state, c *ssa.CallCommon, args []string, pos tok
 }
 
 var _ = strings.TrimSpace
+
+// declareCounting declares the newline-counting spec functions (no axioms: every fact used is a
+// ground consequence of the definitions, emitted where strings.Count / strings.LastIndex are called):
+//   nlcum(B,k)     = #{ j in [0,k) : B[j] = '\n' }              (so a count over [a,b) is nlcum(B,b) - nlcum(B,a))
+//   lstartraw(B,k) = 1 + max{ j < k : B[j] = '\n' }  (position just after the last newline before k)
+func (u *Universe) declareCounting() {
+	u.global("(declare-fun nlcum ((Array Int Int) Int) Int)")
+	u.global("(declare-fun lstartraw ((Array Int Int) Int) Int)")
+}
